@@ -1,6 +1,7 @@
 package sqlite
 
 import (
+	"context"
 	eventbus "github.com/jilio/ebu"
 )
 
@@ -71,15 +72,23 @@ func harnessC10SqliteReadChain() {
 	vCover("chain-done")
 }
 
-//verif:entry property=C10 tier=both bounds="SQLite store through the database/sql model: 3 SaveOffset calls with arbitrary (SMT string) ids and offsets the store issued, load of an arbitrary id; two stores on different files and two ':memory:' stores" cover="loaded"
+//verif:entry property=C10 tier=both bounds="SQLite store through the database/sql model: 3 SaveOffset calls with arbitrary (SMT string) ids and offsets the store issued (one of them optionally preceded by an attempt under an already ended context), load of an arbitrary id; two stores on different files and two ':memory:' stores" cover="loaded"
 func harnessC10SqliteOffsetsAndIsolation() {
 	s1 := mustNew("/tmp/gosx-c10-c.db")
 	s2 := mustNew("/tmp/gosx-c10-d.db")
 	recs := sqlFill(s1, 3)
 	ids := []string{vStr("id0"), vStr("id1"), vStr("id2")}
 	offs := make([]eventbus.Offset, 3)
+	failIdx := vInt(-1, 2)
 	for i := range ids {
 		offs[i] = recs[vPick(3)].off
+		if i == failIdx {
+			// a first attempt under a context that has already ended (it cannot have written anything); the
+			// caller tries again
+			cctx, ccancel := context.WithCancel(bg)
+			ccancel()
+			_ = s1.SaveOffset(cctx, ids[i], offs[i])
+		}
 		vAssert(s1.SaveOffset(bg, ids[i], offs[i]) == nil, "save-ok")
 	}
 	probe := vStr("probe")
